@@ -84,6 +84,7 @@ type workerReport struct {
 
 type failureHead struct {
 	Prop    string `json:"property"`
+	Eval    int    `json:"eval"`
 	Variant string `json:"variant"`
 	V       struct {
 		Oracle  string `json:"oracle"`
@@ -110,6 +111,28 @@ type knownFinding struct {
 	Contains []string `json:"contains,omitempty"`
 	Commit   string   `json:"commit,omitempty"`
 	What     string   `json:"what"`
+}
+
+// reproducesWithHistory re-executes evaluations 0..idx of one worker in a fresh process and
+// reports whether evaluation idx fails with the given oracle and class again.
+func reproducesWithHistory(id, workerBin, sitesPath, scratch string, seed uint64, w int, variant, tier string, idx int, oracle, class string, env []string) bool {
+	out := filepath.Join(scratch, fmt.Sprintf("histfail-%d-%d.json", w, idx))
+	cmd := exec.Command(workerBin, "-prop", id, "-sites", sitesPath, "-seed", strconv.FormatUint(seed, 10), "-worker", strconv.Itoa(w),
+		"-start", "0", "-evals", strconv.Itoa(idx+1), "-variant", variant, "-tier", tier, "-out", out, "-maxfail", "1000000")
+	cmd.Env = env
+	cmd.Run()
+	var r workerReport
+	b, err := os.ReadFile(out)
+	if err != nil || json.Unmarshal(b, &r) != nil {
+		return false
+	}
+	for _, f := range r.Failures {
+		var fh failureHead
+		if json.Unmarshal(f, &fh) == nil && fh.Eval == idx && fh.V.Oracle == oracle && fh.V.Class == class {
+			return true
+		}
+	}
+	return false
 }
 
 // blockingUnsupported selects, from simgen's list of constructs it does not control, those
@@ -313,11 +336,25 @@ func main() {
 	if *replay != "" {
 		var hf struct {
 			Oracle  string `json:"oracle"`
+			Class   string `json:"class"`
 			Variant string `json:"variant"`
 			Seed    int64  `json:"seed"`
 			Worker  int    `json:"worker"`
 			Index   int    `json:"index"`
 			Tier    string `json:"tier"`
+		}
+		var hk struct {
+			Kind string `json:"kind"`
+		}
+		if b, err := os.ReadFile(*replay); err == nil && json.Unmarshal(b, &hk) == nil && hk.Kind == "failure-with-history" {
+			json.Unmarshal(b, &hf)
+			if reproducesWithHistory(id, workerBin, sitesPath, scratch, uint64(hf.Seed), hf.Worker, hf.Variant, hf.Tier, hf.Index, hf.Oracle, hf.Class, workerEnv(1)) {
+				fmt.Printf("REPLAY: evaluation %d fails (%s / %s) after the %d evaluations before it in one process\n", hf.Index, hf.Oracle, hf.Class, hf.Index)
+				fmt.Printf("VIOLATION property=%s replay=%s\n", id, *replay)
+				exit(1)
+			}
+			fmt.Println("REPLAY: no violation (the property held on this replay)")
+			exit(0)
 		}
 		if b, err := os.ReadFile(*replay); err == nil && json.Unmarshal(b, &hf) == nil && hf.Oracle == "fresh-vs-warm" {
 			run1 := func(start, evals, every int, tag string) (uint64, bool) {
@@ -620,6 +657,7 @@ func main() {
 	raceUnreproduced := 0
 	var failures, raceFailures []json.RawMessage
 	var hangs []json.RawMessage
+	failureWorker := map[string]int{} // raw failure -> worker id (the lane is in the record)
 	raceRuns, raceEvals := 0, 0
 	var raceReps []string
 	laneEvals := map[string]int{}
@@ -664,6 +702,9 @@ func main() {
 			raceFailures = append(raceFailures, r.Failures...)
 		} else {
 			failures = append(failures, r.Failures...)
+			for _, f := range r.Failures {
+				failureWorker[string(f)] = jobs[i].w
+			}
 		}
 		if len(r.Hang) > 0 && string(r.Hang) != "null" {
 			hangs = append(hangs, r.Hang)
@@ -857,6 +898,21 @@ func main() {
 		var eb bytes.Buffer
 		cmd.Stderr = &eb
 		if err := cmd.Run(); err != nil {
+			// The failure does not occur as the first evaluation of a fresh process. Either it depends
+			// on what the same process evaluated before (state the code under test carries from one
+			// run to the next - a violation in its own right, reproducible by replaying the history),
+			// or the harness is not deterministic.
+			if w, ok := failureWorker[string(raw)]; ok {
+				if reproducesWithHistory(id, workerBin, sitesPath, scratch, seed, w, fh.Variant, *tier, fh.Eval, fh.V.Oracle, fh.V.Class, workerEnv(1)) {
+					hr := map[string]any{"property": id, "oracle": fh.V.Oracle, "class": fh.V.Class, "kind": "failure-with-history",
+						"message": fh.V.Message + "\n  (the failure occurs as evaluation " + strconv.Itoa(fh.Eval) + " of a process that ran the evaluations before it, reproducibly, but not as the first evaluation of a fresh process: the code under test carries state from one run to the next)",
+						"seed":    seed, "variant": fh.Variant, "worker": w, "index": fh.Eval, "tier": *tier}
+					b, _ := json.MarshalIndent(hr, "", " ")
+					os.WriteFile(final, b, 0o644)
+					report(&replayHead{Prop: id, Oracle: fh.V.Oracle, Class: fh.V.Class, Message: hr["message"].(string)}, final)
+					return
+				}
+			}
 			fmt.Printf("minimiser could not reproduce %s (%v): %s\n", key, err, tail(eb.String(), 5))
 			inconclusive++
 			return
